@@ -162,6 +162,29 @@ struct DotDir { v: u8 }
 #[derive(TS)]
 #[ts(export_to = ".hidden")]
 struct Hidden { v: u8 }
+// a second type in `shared.ts`, spelled with the `..` detour, that USES a type of the same file spelled plainly
+// (whether two types share a file is a question about normalised paths, not about the spelling of `export_to`)
+#[derive(TS)]
+#[ts(export_to = "dots/../shared.ts")]
+struct ShDots2 { a: ShA, l: Leaf }
+// dependencies reached by descending into an entry whose name begins with a dot: the specifier still starts with `./`
+#[derive(TS)]
+#[ts(export_to = ".generated/")]
+struct HiddenDep { v: u8 }
+#[derive(TS)]
+#[ts(export_to = ".dotshared.ts")]
+struct DotA { v: u8 }
+#[derive(TS)]
+struct UsesDotNames { h: HiddenDep, a: DotA }
+// a type used FIRST inlined / flattened and THEN by name in one item, and nowhere else: its file still has to be written
+#[derive(TS)]
+struct OnlyHere { v: u8 }
+#[derive(TS)]
+struct InlThenName { #[ts(inline)] first: OnlyHere, second: OnlyHere }
+#[derive(TS)]
+struct OnlyThere { w: u8 }
+#[derive(TS)]
+struct FlatThenName { #[ts(flatten)] first: OnlyThere, second: OnlyThere }
 
 struct Entry {
     name: &'static str,
@@ -233,6 +256,8 @@ fn universe() -> Vec<Entry> {
         entry::<User>("User"), entry::<shapes::Point>("shapes::Point"), entry::<geo::Point>("geo::Point"), entry::<geo::Srid>("Srid"),
         entry::<UsesPoints>("UsesPoints"), entry::<Pt<u8>>("Pt<u8>"), entry::<Pt2>("Pt2"), entry::<UsesPts>("UsesPts"),
         entry::<NoExt>("NoExt"), entry::<OtherExt>("OtherExt"), entry::<DotDir>("DotDir"), entry::<Hidden>("Hidden"),
+        entry::<ShDots2>("ShDots2"), entry::<HiddenDep>("HiddenDep"), entry::<DotA>("DotA"), entry::<UsesDotNames>("UsesDotNames"),
+        entry::<OnlyHere>("OnlyHere"), entry::<InlThenName>("InlThenName"), entry::<OnlyThere>("OnlyThere"), entry::<FlatThenName>("FlatThenName"),
     ]
 }
 
